@@ -361,6 +361,49 @@ var invalidCatalogue = []entry{
 	{name: "log-all-absent", scope: "log", targets: allLogs, apply: func(t *rapid.T, c *ValCase, i int) { c.Logs[i] = RawLog{} }},
 
 	// --- rules over the set of logs
+	// (first of the structural entries: rapid's SampledFrom favours the head of a list, and this entry
+	// has the largest space of shapes to cover)
+	{name: "tree-id-duplicate-pattern", scope: "set", targets: whole(func(c *ValCase) bool { return len(c.Logs) >= 2 }), apply: func(t *rapid.T, c *ValCase, _ int) {
+		// 2-5 logs at arbitrary positions share one tree id; their backends are drawn freely, then one
+		// pair is forced onto the same backend (any position pattern: A A, A B A, A B B A, B A C A ...)
+		m := min(rapid.SampledFrom([]int{2, 3, 3, 3, 4, 4, 5}).Draw(t, "dup-m"), len(c.Logs))
+		pos := append([]int(nil), rapid.Permutation(allLogs(c)).Draw(t, "dup-pos")[:m]...)
+		sort.Ints(pos)
+		x := c.Logs[pos[0]].ID
+		if c.Multi && len(c.Backends) > 0 {
+			names := backendNames(c.Backends)
+			shape := rapid.SampledFrom([]string{"random", "alternate", "alternate", "ends"}).Draw(t, "dup-shape")
+			if len(names) < 2 || m < 3 {
+				shape = "random"
+			}
+			switch shape {
+			case "random":
+				for _, p := range pos {
+					c.Logs[p].Backend = rapid.SampledFrom(names).Draw(t, "dup-backend")
+				}
+				a := rapid.IntRange(0, m-2).Draw(t, "dup-a")
+				b := rapid.IntRange(a+1, m-1).Draw(t, "dup-b")
+				c.Logs[pos[b]].Backend = c.Logs[pos[a]].Backend
+			case "alternate": // A B A B ...: the repeated pair is never adjacent among the sharers
+				ab := rapid.Permutation(names).Draw(t, "dup-ab")
+				for k, p := range pos {
+					c.Logs[p].Backend = ab[k%2]
+				}
+			case "ends": // A x .. x A with every x != A
+				ab := rapid.Permutation(names).Draw(t, "dup-ab")
+				for k, p := range pos {
+					if k == 0 || k == m-1 {
+						c.Logs[p].Backend = ab[0]
+					} else {
+						c.Logs[p].Backend = rapid.SampledFrom(ab[1:]).Draw(t, "dup-mid")
+					}
+				}
+			}
+		}
+		for _, p := range pos {
+			c.Logs[p].ID = x
+		}
+	}},
 	{name: "prefix-empty", scope: "set", targets: allLogs, apply: func(t *rapid.T, c *ValCase, i int) { c.Logs[i].Prefix = "" }},
 	{name: "prefix-duplicate", scope: "set", targets: func(c *ValCase) []int {
 		if len(c.Logs) < 2 {
@@ -380,27 +423,6 @@ var invalidCatalogue = []entry{
 		j := (i + rapid.IntRange(1, len(c.Logs)-1).Draw(t, "id-donor")) % len(c.Logs)
 		c.Logs[i].ID = c.Logs[j].ID
 		c.Logs[i].Backend = c.Logs[j].Backend // same backend: the per-backend rule
-	}},
-
-	{name: "tree-id-duplicate-pattern", scope: "set", targets: whole(func(c *ValCase) bool { return len(c.Logs) >= 2 }), apply: func(t *rapid.T, c *ValCase, _ int) {
-		// 2-5 logs at arbitrary positions share one tree id; their backends are drawn freely, then one
-		// pair is forced onto the same backend (any position pattern: A A, A B A, A B B A, B A C A ...)
-		m := rapid.IntRange(2, min(len(c.Logs), 5)).Draw(t, "dup-m")
-		pos := append([]int(nil), rapid.Permutation(allLogs(c)).Draw(t, "dup-pos")[:m]...)
-		sort.Ints(pos)
-		x := c.Logs[pos[0]].ID
-		if c.Multi && len(c.Backends) > 0 {
-			names := backendNames(c.Backends)
-			for _, p := range pos {
-				c.Logs[p].Backend = rapid.SampledFrom(names).Draw(t, "dup-backend")
-			}
-			a := rapid.IntRange(0, m-2).Draw(t, "dup-a")
-			b := rapid.IntRange(a+1, m-1).Draw(t, "dup-b")
-			c.Logs[pos[b]].Backend = c.Logs[pos[a]].Backend
-		}
-		for _, p := range pos {
-			c.Logs[p].ID = x
-		}
 	}},
 
 	// --- rules of the backend set
